@@ -414,3 +414,35 @@ def replay_class_change_during_zero_server_shift(prop, v):
 
 
 REPLAYS["Node.change_customer_class_while_waiting"] = replay_class_change_during_zero_server_shift
+
+
+def replay_interrupted_blocked_customer(prop, v):
+    """whole-run witness (D4): node 1 has a pre-emptive ('resume') schedule with a shift end at t=5; its customer finished at t=4 and is
+    blocked towards node 2 (busy until t=20) when the shift ends"""
+    ciw = _ciw()
+    N = ciw.create_network(
+        arrival_distributions=[ciw.dists.Sequential([1.0, float('inf')]), ciw.dists.Sequential([0.5, float('inf')])],
+        service_distributions=[ciw.dists.Deterministic(3.0), ciw.dists.Deterministic(19.5)],
+        number_of_servers=[ciw.Schedule(numbers_of_servers=[1, 1], shift_end_dates=[5, 100], preemption='resume'), 1],
+        queue_capacities=[float('inf'), 0],
+        routing=[[0.0, 1.0], [0.0, 0.0]])
+    Q = ciw.Simulation(N)
+    clock = []
+    for k in range(10):
+        node = Q.find_next_active_node()
+        Q.current_time = node.next_event_date
+        clock.append(Q.current_time)
+        node.have_event()
+        for nd in Q.transitive_nodes:
+            nd.update_next_event_date()
+    back = [(a, b) for a, b in zip(clock, clock[1:]) if b < a]
+    neg = [r for r in Q.get_all_records() if r.record_type == 'service' and r.service_time < 0]
+    if back or neg:
+        return dict(confirmed=True, kind="whole-run",
+                    transcript=f"a customer blocked since t=4 is interrupted at the pre-emptive shift end t=5 with time_left = 4 - 5 = -1; its resumed service "
+                               f"'ends' in the past: clock sequence {clock} goes backwards at {back}; service records with negative service time: "
+                               f"{[(r.id_number, r.service_start_date, r.service_time, r.service_end_date) for r in neg]}")
+    return dict(confirmed=False, kind="whole-run", transcript=f"clock {clock} is monotone and no service time is negative")
+
+
+REPLAYS["Node.interrupt_service"] = replay_interrupted_blocked_customer
